@@ -15,6 +15,12 @@ theorem feq_ne {a b : ℝ} (h : a ≠ b) : feq a b = false := by
   · simp [not_le.mpr h']
 
 
+/-- `laplace.py:Laplace.randomise` -/
+noncomputable def gen_laplaceScale (e d s : ℝ) : ℝ := (s / (e - (Real.log ((1 : ℝ) - d))))
+theorem gen_laplaceScale_eq (e d s : ℝ)  : gen_laplaceScale e d s = laplaceScale e d s := by
+  unfold gen_laplaceScale
+  simp only [laplaceScale, transc_log]
+
 /-- `laplace.py:LaplaceBoundedNoise.randomise` -/
 noncomputable def gen_boundedNoiseScale (e s : ℝ) : ℝ := (s / e)
 theorem gen_boundedNoiseScale_eq (e s : ℝ)  : gen_boundedNoiseScale e s = boundedNoiseScale e s := by
